@@ -50,7 +50,7 @@ impl Check for C18 {
         vec!["'strictly increasing' as defined by C12's reference classification".into()]
     }
     fn required_classes(&self, _t: Tier) -> Vec<&'static str> {
-        vec!["dim:1", "dim:2", "min:0", "min:4", "input:valid", "input:invalid", "inject:build", "inject:interp", "ep:scalar", "ep:interp", "ep:interp_into", "ep:array", "ep:array_into", "qdim:Ix2", "qdim:IxDyn", "query:nan-or-out-of-range", "query:nonstandard-layout"]
+        vec!["dim:1", "dim:2", "min:0", "min:4", "input:valid", "input:invalid", "inject:build", "inject:interp", "ep:scalar", "ep:interp", "ep:interp_into", "ep:array", "ep:array_into", "qdim:Ix2", "qdim:IxDyn", "query:nan-or-out-of-range", "query:nonstandard-layout", "trailing:zero-length"]
     }
 }
 
@@ -98,7 +98,11 @@ fn run<T: Flt>(src: &mut Src, obs: &mut Obs, two_d: bool) -> Result<(), Fail> {
         shape.push(ny);
     }
     for _ in k..rank {
-        shape.push(src.usize_in(1, 3));
+        // zero-length trailing axes occur too: the strategy must still be called once per query
+        shape.push(if src.chance(1, 12) { 0 } else { src.usize_in(1, 3) });
+    }
+    if shape[k..].contains(&0) {
+        obs.class("trailing:zero-length");
     }
     let trailing: Vec<usize> = shape[k..].to_vec();
     let lanes = product(&trailing);
